@@ -41,15 +41,61 @@ def make_cases(rng, dev, modes, opcodes, per_opcode, mode, allow_decimal):
     return cases
 
 
+def foreign_warmup(classes, dev, seed, per_opcode=2):
+    """Cross-device history: before the cases of `dev`, the OTHER devices execute instructions in the same
+    process (a fresh instance per case and one long-lived instance each), in a seed-derived order.  Nothing a
+    device of another kind did earlier may matter (C14: instances share no state), so the documented outcome
+    of the cases that follow is unchanged; a table, memo or cache that one device fills and another reads
+    (class attributes looked up through inheritance, module-level dicts) then shows up in the ordinary
+    comparison, with the warm-up recorded in the replay.  -> description dict for the replay."""
+    rng = random.Random('neighbours-%d' % seed)
+    others = [d for d in DEVNAMES if d != dev]
+    if (seed // 2) % 2:          # the two warmed jobs of a device use opposite orders
+        others.reverse()
+    n = 0
+    for od in others:
+        modes = classes[od].disassemble
+        opcodes = [i for i in range(256) if modes[i][0] != '???']
+        vet = None
+        for c in make_cases(rng, od, modes, opcodes, per_opcode, 'step', True):
+            try:
+                real_observe(c, classes)
+                if vet is None:
+                    vet = classes[od]()
+                real_observe(c, classes, mpu=vet)
+            except Exception:
+                vet = None
+            n += 1
+    return dict(seed=seed, order=others, cases=n, per_opcode=per_opcode)
+
+
 def _worker(args):
     (modname, dev, opcodes, per_opcode, seed, driver_ok) = args
     import importlib
     spec = importlib.import_module(modname).SPEC
     classes = device_classes()
     modes = classes[dev].disassemble
+    warm = None
+    if seed % 2 == 1 and not os.environ.get('VERIF_NO_NEIGHBOURS'):
+        warm = foreign_warmup(classes, dev, seed)
     rng = random.Random(seed)
     cases = make_cases(rng, dev, modes, opcodes, per_opcode, spec['mode'], spec.get('decimal', False))
-    return evaluate(spec, cases, classes, driver_ok)
+    r = evaluate(spec, cases, classes, driver_ok)
+    r['warm'] = 1 if warm else 0
+    if warm:
+        for f in r['findings']:
+            f['replay']['other_devices_first'] = warm
+    return r
+
+
+def _confirm_plain(args):
+    """Does the finding's case also deviate in a process where no other device ran first?"""
+    (modname, case_json, driver_ok) = args
+    import importlib
+    spec = importlib.import_module(modname).SPEC
+    classes = device_classes()
+    r = evaluate(dict(spec, tv=False), [Case.from_json(case_json)], classes, driver_ok)
+    return bool(r['findings'])
 
 
 def evaluate(spec, cases, classes, driver_ok):
@@ -187,8 +233,28 @@ def explore(ctx, spec):
     results = []
     if corpus:
         results.append(evaluate(spec, corpus, classes, ctx.driver_ok))
-    with multiprocessing.Pool(min(16, len(jobs))) as pool:
-        results += pool.map(_worker, jobs)
+    # one process per job: what a job leaves behind in its process (the cross-device warm-up of every second
+    # job, class-level caches) must not leak into the next job, or replays would not reproduce
+    with multiprocessing.Pool(min(16, len(jobs)), maxtasksperchild=1) as pool:
+        results += pool.map(_worker, jobs, chunksize=1)
+    ctx.stats['jobs_after_other_devices_ran_first'] = '%d of %d' % (sum(r.get('warm', 0) for r in results), len(jobs))
+    # a finding from a warmed process: is the warm-up needed?  (fresh process, no other device first)
+    checked = {}
+    for r in results:
+        for f in r['findings']:
+            w = f['replay'].get('other_devices_first')
+            if not w:
+                continue
+            ks = json.dumps(f['key'], sort_keys=True)
+            if ks not in checked and len(checked) < 6:
+                with multiprocessing.Pool(1, maxtasksperchild=1) as pool:
+                    checked[ks] = pool.map(_confirm_plain, [(spec['module'], f['replay']['case'], ctx.driver_ok)])[0]
+            if checked.get(ks) is False:
+                f['key'] = dict(f['key'], cross_device_history=True)
+                f['what'] += ' [only after other devices executed instructions in the same process: %s]' % \
+                             ', '.join(w['order'])
+            elif checked.get(ks) is True:
+                f['replay'].pop('other_devices_first', None)
     n = sum(r['n'] for r in results)
     nontriv = set()
     dist = {}
@@ -238,6 +304,10 @@ def replay(ctx, path):
     classes = device_classes()
     c = Case.from_json(f['replay']['case'])
     hist = f['replay'].get('earlier_cases_on_the_same_instance')
+    warm = f['replay'].get('other_devices_first')
+    if warm:
+        w = foreign_warmup(classes, c.dev, warm['seed'], warm.get('per_opcode', 2))
+        print('history: %d instruction(s) executed on %s in this process first' % (w['cases'], ', '.join(w['order'])))
     if hist:
         m = classes[c.dev]()
         for h in hist:
